@@ -410,6 +410,26 @@ class _EmptyCallable:
         return self is other
 
 
+COPIED_CALLABLE_CALLS = []  # (kind of callable) for every call that reached a COPY of a caller-supplied callable object
+
+
+class _StatefulCallable:
+    """A callable object with state of its own - a recorder with a list, a bound method of the caller's worker object: the library is to
+    call THE object it was given.  A copy (copy.deepcopy of a config, dataclasses.asdict, pickling) answers the same way but leaves
+    the caller's object uninformed; calls that arrive at a copy are noted."""
+
+    def __init__(self, fn):
+        self.fn = fn
+        self.seen = []
+        self._rv_identity = id(self)
+
+    def __call__(self, *a, **kw):
+        if id(self) != self._rv_identity:
+            COPIED_CALLABLE_CALLS.append(getattr(self.fn, "__qualname__", repr(self.fn)))
+        self.seen.append(len(a))
+        return self.fn(*a, **kw)
+
+
 class _NoTruthValue:
     def __init__(self, x):
         self.x = x
@@ -589,6 +609,11 @@ class Harness:
         """The kind of object the caller's callbacks are (scenario key `cb_shape`)."""
         if fn is not None and self.sc.get("cb_shape") == "empty":
             return _EmptyCallable(fn)
+        if fn is not None and self.sc.get("cb_shape") == "stateful":
+            import inspect
+
+            if not inspect.iscoroutinefunction(fn):  # (coroutine functions are recognised by type: they stay what they are)
+                return _StatefulCallable(fn)
         return fn
 
     def cb_fault(self, name, defer=False):
@@ -1571,12 +1596,16 @@ def run(sc, entry, *, wall_seed=0, wall_mode="jump", manual=True):
             world.trace = None
             return recs, h, world
         recs = []
+        del COPIED_CALLABLE_CALLS[:]
         for k in range(len(sc["calls"])):
             if h.is_async:
                 recs.append(h.call_async(k))
             else:
                 recs.append(h.call_sync(k))
             recs[-1].hits = dict(world.hits)
+            if COPIED_CALLABLE_CALLS:
+                recs[-1].trace.append(("callable-copied", tuple(sorted(set(COPIED_CALLABLE_CALLS)))))
+                del COPIED_CALLABLE_CALLS[:]
         h.cur = None
         world.trace = None
     return recs, h, world
